@@ -221,9 +221,6 @@ def runOp (g : String) (a : Args) : Option String := do
   | "rangectx" => do
     let lb ← a.bound? "lb"; let ub ← a.bound? "ub"
     some ("ctx " ++ (rangeCtx lb ub).toString)
-  | "propquadfixed" => do  -- the proposed repair
-    let q ← a.quad? "quad"; let cx ← a.ctx?
-    some ("ctx " ++ " ".intercalate ((propQuadFixed B cx q).map fun (v, c) => s!"{v}:{c.toString}"))
   | "propfun" => do   -- PropagateResult(<functional constraint>&, ..., ctx): contexts handed to the arguments
     let cx ← a.ctx?
     let ty ← a.get? "type"
@@ -243,7 +240,7 @@ def runOp (g : String) (a : Args) : Option String := do
   | "proplin" => do   -- PropagateResult2LinTerms
     let body ← a.lin? "lin"; let cx ← a.ctx?
     some ("ctx " ++ " ".intercalate ((propLin cx body).map fun (v, c) => s!"{v}:{c.toString}"))
-  | "propquad" => do  -- PropagateResult2QuadTerms (as coded)
+  | "propquad" => do  -- PropagateResult2QuadTerms
     let q ← a.quad? "quad"; let cx ← a.ctx?
     some ("ctx " ++ " ".intercalate ((propQuad B cx q).map fun (v, c) => s!"{v}:{c.toString}"))
   | _ => none
